@@ -21,6 +21,8 @@ pub enum Stmt {
     RaiseBurst,
     /// nanosleep for the given number of milliseconds (keeps a detached process observable)
     Sleep(u8),
+    /// defines the call-injection targets c0..c6 (each logs its arguments) and calls each once
+    CallTargets,
 }
 
 impl Stmt {
@@ -36,6 +38,7 @@ impl Stmt {
             Stmt::Raise(n) => format!("s{n}"),
             Stmt::RaiseBurst => "sb".into(),
             Stmt::Sleep(n) => format!("z{n}"),
+            Stmt::CallTargets => "ct".into(),
         }
     }
 }
@@ -299,6 +302,48 @@ pub fn generate(name: &str, body: &[Stmt]) -> Program {
         s.l("}", None);
         functions.push("rec".into());
     }
+    let targets = needs(|s| matches!(s, Stmt::CallTargets));
+    if targets {
+        s.raw(r#"pub static mut LOGN: u64 = 0;
+pub static mut LOGSUM: u64 = 0;
+#[inline(never)]
+fn log_call(id: u64, v: [i64; 6]) {
+    unsafe {
+        let n = core::ptr::read_volatile(&raw const LOGN);
+        core::ptr::write_volatile(&raw mut LOGN, n + 1);
+        let mut s = core::ptr::read_volatile(&raw const LOGSUM);
+        s = s.wrapping_mul(31).wrapping_add(id.wrapping_mul(1000003));
+        let mut i = 0;
+        while i < 6 {
+            s = s.wrapping_add((v[i] as u64).wrapping_mul(i as u64 + 7));
+            i += 1;
+        }
+        core::ptr::write_volatile(&raw mut LOGSUM, s);
+    }
+}
+#[inline(never)]
+pub fn c0() {
+    log_call(0, [0; 6]);
+}
+#[inline(never)]
+pub fn c1(a: i64) {
+    log_call(1, [a, 0, 0, 0, 0, 0]);
+}
+#[inline(never)]
+pub fn c2(a: i64, b: bool) {
+    log_call(2, [a, b as i64, 0, 0, 0, 0]);
+}
+#[inline(never)]
+pub fn c3(a: u8, b: i64, c: u32) {
+    log_call(3, [a as i64, b, c as i64, 0, 0, 0]);
+}
+#[inline(never)]
+pub fn c6(a: i64, b: i64, c: i64, d: i64, e: i64, f: i64) {
+    log_call(6, [a, b, c, d, e, f]);
+}
+"#);
+        functions.extend(["c0", "c1", "c2", "c3", "c6"].iter().map(|x| x.to_string()));
+    }
     s.l("#[unsafe(no_mangle)]", None);
     s.l("pub extern \"C\" fn main(_argc: i32, _argv: *const *const u8) -> i32 {", None);
     s.l("    let mut a: u64 = unsafe { core::ptr::read_volatile(&raw const ACC) };", Some("main.init"));
@@ -350,6 +395,13 @@ pub fn generate(name: &str, body: &[Stmt]) -> Program {
                 s.l(&format!("    raise({sig});"), Some(&m("raise")));
                 s.l("    a += 2;", Some(&m("post")));
             }
+            Stmt::CallTargets => {
+                s.l("    c0();", Some(&m("c0")));
+                s.l("    c1(5);", None);
+                s.l("    c2(-2, true);", None);
+                s.l("    c3(200, 7, 9);", None);
+                s.l("    c6(1, 2, 3, 4, 5, 6);", Some(&m("c6")));
+            }
             Stmt::Sleep(ms) => {
                 s.l("    a += 5;", Some(&m("presleep")));
                 s.l(&format!("    let ts: [u64; 2] = [0, {} * 1_000_000];", ms), None);
@@ -367,6 +419,10 @@ pub fn generate(name: &str, body: &[Stmt]) -> Program {
     }
     if signals {
         s.l("    emit(hits());", Some("main.hits"));
+    }
+    if targets {
+        s.l("    emit(unsafe { core::ptr::read_volatile(&raw const LOGN) });", Some("main.logn"));
+        s.l("    emit(unsafe { core::ptr::read_volatile(&raw const LOGSUM) });", Some("main.logsum"));
     }
     s.l("    emit(a);", Some("main.emit"));
     s.l("    (a % 200) as i32", Some("main.ret"));
